@@ -9,6 +9,12 @@ from .common import LogModel, run_fn, ret_paths, variant_of, argval, argstr, sea
 ADAPTERS = r"Iterator>::(skip|take|filter|step_by|rev|skip_while|take_while|chain|zip)\b"
 
 
+def is_accepting_push(callee):
+    """push onto the list of (state, terminal) pairs — a tuple, or a small struct the rules do not know (taken as a tuple)"""
+    m = re.search(r"Vec::<(.*)>::push$", callee)
+    return bool(m) and (re.match(r"^\(.*StateSetID, usize\)$", m.group(1)) is not None or S.is_unknown_struct(m.group(1)))
+
+
 def is_map_size(v):
     """The value is the size of the id map itself — through casts and the id newtype only, not a value computed from it
     (`len() - 1` gives the second closure the id of the start state)."""
@@ -156,7 +162,7 @@ def analyze(ctx, want):
             if tag == "multi":
                 anyc = [(c, o) for c, o in p.conds if c[0] == "app" and re.search(r"Iterator>::any::", c[1])]
                 allc = [(c, o) for c, o in p.conds if c[0] == "app" and re.search(r"Iterator>::all::", c[1])]
-                pushes = [e for e in p.events if e[0] == "call" and re.search(r"Vec::<\(.*StateSetID, usize\)>::push$", e[2])]
+                pushes = [e for e in p.events if e[0] == "call" and is_accepting_push(e[2])]
                 if allc:
                     ob("C02.d", "multi:accepting-iff-some-member-is-an-end-state", False, "acceptance is decided with all() over the closure", fn.loc())
                 if anyc:
@@ -183,7 +189,7 @@ def analyze(ctx, want):
                         ob("C02.d", "multi:non-accepting-closure-not-labelled", not pushes, "%d pushes for a closure without end state" % len(pushes), fn.loc())
             else:
                 cont = [(c, o) for c, o in p.conds if c[0] == "app" and re.search(r"BTreeSet::<.*>::contains", c[1])]
-                pushes = [e for e in p.events if e[0] == "call" and re.search(r"Vec::<\(.*StateSetID, usize\)>::push$", e[2])]
+                pushes = [e for e in p.events if e[0] == "call" and is_accepting_push(e[2])]
                 if cont:
                     c, o = cont[0]
                     ok_end = "nfa.end_state" in S.fstr(c) and tc is not None and S.mentions(c, lambda x: x == tc[4])
